@@ -794,6 +794,16 @@ ssize_t pwrite64(int fd, const void *buf, size_t n, off_t off)
         return r; \
     } while (0)
 
+/* A fixed process ID (FSSHIM_FAKEPID): successive runs of a history look like processes that were given the same PID
+ * (PID namespaces of containers, wrap-around), so names derived from the PID collide across runs. */
+pid_t getpid(void)
+{
+    const char *fp = getenv("FSSHIM_FAKEPID");
+    if (fp && *fp)
+        return (pid_t)atoi(fp);
+    return (pid_t)syscall(SYS_getpid);
+}
+
 int rename(const char *a, const char *b)
 {
     REAL(rename);
